@@ -195,6 +195,12 @@ def shard(sh: Shard, combos, seed, nwire, kinds, hashseed=None):
                     continue
                 try:
                     check_facade(sh, kind, facade, spa, refs, cfg, log, block, wit)
+                    if kind == "threaded" and wi % 3 == 0 and hasattr(facade, "scan_outputs"):
+                        # the blocking facade's public scan can be run again (outputs re-wired, a second
+                        # on_connected): the inventory must be the same, each device once
+                        facade.scan_outputs()
+                        sh.count("threaded_rescans")
+                        check_facade(sh, kind, facade, spa, refs, cfg, log, block, dict(wit, rescan=True))
                 except Exception as e:
                     d = describe_exc(e)
                     if d["where"] == "repo":
